@@ -146,6 +146,19 @@ def compile_spec(spec, codec, numeric_enums=False, rec=None):
         return None
 
 
+def value_weight(v):
+    """rough size of a value: leaves plus string/byte lengths in units of 16"""
+    if isinstance(v, dict):
+        return 1 + sum(value_weight(x) for x in v.values())
+    if isinstance(v, list):
+        return 1 + sum(value_weight(x) for x in v)
+    if isinstance(v, tuple):
+        return 1 + sum(value_weight(x) for x in v)
+    if isinstance(v, (bytes, bytearray, str)):
+        return 1 + len(v) // 16
+    return 1
+
+
 def short(v, n=300):
     s = repr(v)
     return s if len(s) <= n else s[:n] + '...'
@@ -380,8 +393,13 @@ class SpecValueCheck(_Check):
                         with _watchdog(self.hang_seconds):
                             self.oracle(x)
                     except _CaseHang:
-                        x.fail('hang', 'a library call on this small case did not return within %d s; value %s'
-                               % (self.hang_seconds, short(v)))
+                        w = value_weight(v)
+                        if w > 3000:
+                            # a time budget hit on a big value is inconclusive, never a violation
+                            rec.cls('inconclusive:watchdog-on-large-value')
+                        else:
+                            x.fail('hang', 'a library call on this small case (weight %d) did not return within '
+                                   '%d s; value %s' % (w, self.hang_seconds, short(v)))
         if shard.get('directed'):
             for case in self.directed(tier, shard):
                 rec.cases += 1
